@@ -3,6 +3,18 @@
 HOOK_COMMITS = []
 
 CHECKS = [
+  {"property_id": "C11", "level": "exploration",
+   "technique": "bounded-exhaustive enumeration of pytd declarations x optimiser settings against a finite-universe set semantics of types",
+   "text": "All constants whose type is a union of <=2 ordered / 3 unordered members over 33 type forms, functions with 1-3 signatures over a type core, mutated and star parameters and class members are loaded through the real loader and optimised under nine option settings (lossless with/without deps, lossy, use_abcs, max_union 0/2/4, remove_mutable); for every constant/parameter/return the set of universe values admitted before must be a subset of the set admitted after, every original signature must be covered point-wise, lossless non-container unions below the union limit must keep exactly their denotation, and Optimize(Optimize(x)) must equal Optimize(x) structurally and in print.",
+   "note": "Denotations are computed on a finite universe of 65 concrete values with vk/admits.py; Callable types only as 'callable'. Bounded by the declaration grammar in vk/checks/c11.py."},
+  {"property_id": "C16", "level": "exploration",
+   "technique": "bounded-exhaustive enumeration of code objects (PS-full nestings + stdlib corpus) with an independent re-computation of the block-graph invariants from the opcode stream and CPython's dis",
+   "text": "Every code object of every PS-full program (all nestings of the statement forms to depth 2 quick / 3 thorough in module, function, async, generator and class contexts) and of the CPython stdlib sources goes through pyc.compile_src and blocks.process_code; clauses (a)-(h) of DESIGN C16 (partition into non-empty blocks, basic-block property, jump targets start blocks and are outgoing edges, every known jump resolved, index/next/prev consistency, order = reachable set with a predecessor before each non-entry block, reachable instructions covered, stream and jump targets equal to dis) are recomputed independently.",
+   "note": "Scoping decisions for SETUP_* pseudo-op targets and SEND/END_ASYNC_FOR surgery as in DESIGN C16 and evidence assumptions. Violations are keyed by clause+message signature with the smallest witnessing input."},
+  {"property_id": "C17", "level": "exploration",
+   "technique": "exhaustive truth-table enumeration of boolean-equation terms built through the public constructors, and of restriction tables for simplify",
+   "text": "All terms to level 2 over 3 variables x 3 values (256,974 distinct terms; both argument orders of Eq; And/Or of every list of <=3 atoms, then of <=2 level-1 terms) and to depth 3 over 2x2 (thorough) are built through booleq.Eq/And/Or and compared with bitmask truth tables over all assignments; structural normal form is checked; simplify is run against every restriction table (all 512 incl. empty sets) and must agree with the term on every assignment drawn from the table.",
+   "note": "Bounded as stated; value-to-value equalities are outside the property. Trusted: the bitmask evaluator in vk/checks/c17.py."},
   {"property_id": "C12", "level": "exploration",
    "technique": "bounded-exhaustive enumeration of exportable ASTs through encode/decode/re-encode; all ordered pairs of a type-node universe for the eq/hash law",
    "text": "Every exportable AST (programs via PrepareForExport, all generated stubs via SourceToExportableAst, bundled builtins/typing/collections/enum/protocols) is serialised, decoded, compared structurally with the canonically ordered original, re-encoded (bytes must match) and decoded/encoded once more; every ordered pair of a universe of type nodes (all type forms as NamedType and ClassType trees, unions/intersections/tuples in every member order, literals) is checked for a == b => equal hashes and set de-duplication.",
